@@ -429,8 +429,16 @@ func (h *c17H) apply() error {
 			}
 		}
 	}
+	armed := h.dp.FailuresToSimulate&mocknetlink.FailNextLinkByNameNotFound != 0
 	err := h.rt.Apply()
 	h.checkMock()
+	if armed && h.dp.FailuresToSimulate&mocknetlink.FailNextLinkByNameNotFound == 0 {
+		// "Link not found" is not a failure but false information (the interface is reported
+		// gone); Felix rightly believes it until a later full resync re-lists the links.
+		h.extDirty = true
+		h.resyncRequested = false
+		h.classes["lied-link-not-found"] = true
+	}
 	h.checkForeign("after Apply")
 	if err != nil {
 		h.classes["apply-error"] = true
@@ -484,8 +492,9 @@ func (h *c17H) deliverPending() {
 	h.pendingIfaceEvents = nil
 }
 
-var c17WorkloadCIDRs = []string{"10.0.0.1/32", "10.0.0.2/32", "10.0.0.3/32", "10.0.1.0/26"}
-var c17BlockCIDRs = []string{"10.0.1.0/26", "10.0.2.0/26", "10.0.3.0/26", "10.0.0.1/32"}
+// The pools overlap on purpose: the same destination wanted by several route classes.
+var c17WorkloadCIDRs = []string{"10.0.0.1/32", "10.0.0.2/32", "10.0.1.0/26", "10.0.2.0/26"}
+var c17BlockCIDRs = []string{"10.0.1.0/26", "10.0.2.0/26", "10.0.0.1/32", "10.0.3.0/26"}
 
 func (h *c17H) drawTarget(t *rapid.T, class routetable.RouteClass, iface string) routetable.Target {
 	var tg routetable.Target
@@ -793,12 +802,6 @@ func TestVerifC17RouteSync(t *testing.T) {
 					mocknetlink.FailNextRouteDel, mocknetlink.FailNextNewNetlink, mocknetlink.FailNextSetSocketTimeout, mocknetlink.FailNextSetStrict,
 				}).Draw(t, "fault")
 				h.dp.FailuresToSimulate |= f
-				if f == mocknetlink.FailNextLinkByNameNotFound {
-					// Not a failure but false information ("the interface is gone"): Felix rightly
-					// believes it until its next full resync re-lists the links.
-					h.extDirty = true
-					h.resyncRequested = false
-				}
 				h.classes["fault-"+f.String()] = true
 				h.faultsSinceGood++
 				h.ops = append(h.ops, "f")
